@@ -2,7 +2,7 @@
    bool, option, unit, list, prod, sumbool, sumor are mapped to OCaml's; Z, positive, nat, ascii stay inductive. *)
 Require Extraction.
 Require Import ExtrOcamlBasic.
-From CF Require Import ListAux Defs Burn Core Cert.
+From CF Require Import ListAux Defs Burn Core Cert Machines.
 Extraction Language OCaml.
 Extraction "model.ml"
   nv mult Vg wfb valg nedges_g genus_g degD graph_eqb div_eqb connected_b
@@ -12,4 +12,8 @@ Extraction "model.ml"
   dsub dadd dneg dscale placements
   rank_plain rank_opt rank_opt_uncorrected canonical_g
   play_game test_strategy find_strategies compute_gonality
-  lin_equiv_q conc_ok cert_ok indeg_o outdeg_o burn_orient burn_pos.
+  lin_equiv_q conc_ok cert_ok indeg_o outdeg_o burn_orient burn_pos
+  ginit gn add_edge add_edges g_genus remove_vertex graph_of_adj
+  dinit dstep cstep is_effective_b d_add d_sub d_eqb chip_at sstep
+  lap_entry lap_matrix lap_reduced lap_apply scripted_moves
+  oinit oconstruct set_orientation check_fullness o_divisor o_reverse o_get dir_at full_b.
